@@ -60,7 +60,8 @@ Lemma parse_rename_decl l n : parse_rename l = Ok n -> decl_nd (SList l) (nm_ide
 Proof.
   unfold parse_rename. intro H. destruct l as [|k [|[a| |] [|[|s|] [|]]]]; try discriminate.
   destruct (is_kw "rename" k) eqn:Ek; [|discriminate]. cbn in H.
-  destruct (ident_tok_ok a && str_tok_ok s); [|discriminate]. inversion H; subst; cbn. now constructor.
+  destruct (ident_tok_ok a && str_tok_ok s); [|discriminate].
+  destruct (unescape_value s) as [v|] eqn:U; [|discriminate]. inversion H; subst; cbn. now constructor.
 Qed.
 
 Lemma parse_namedef_decl x n : parse_namedef x = Ok n -> decl_nd x (nm_ident n) (nm_orig n).
@@ -706,7 +707,7 @@ Proof.
 Qed.
 
 Lemma decl_nd_names nd i o : decl_nd nd i o -> nd_names nd = (i, display i o).
-Proof. intro H. inversion H; subst; reflexivity. Qed.
+Proof. intro H. inversion H as [|k a s v Hk U]; subst; cbn; [|rewrite U]; reflexivity. Qed.
 
 Lemma denote_net_names F ports insts args nt : denote_net F ports insts args nt -> fst (net_names args) = fst nt.
 Proof.
